@@ -66,7 +66,7 @@ func ZzC17() {
 				// everything that was stored when the deleter looked: races with the appends at the head
 				to = chain[N0-1].H + 1
 			}
-			err := s.DeleteRange(ctx, chain[0].H, to)
+			err := s.DeleteRange(zzTagged(ctx, "del"), chain[0].H, to)
 			zz.Assert(err == nil, "tail-side DeleteRange succeeds while writers append at the head")
 			deleted = err == nil
 			finished++
